@@ -13,7 +13,9 @@
  * A thread that is about to trylock while another thread owns the mutex is disabled until the mutex
  * is free (the spin/usleep loop of Q_MUTEX_ENTER is not executed).
  *
- * line:   <kind> init=<n> [range=<r>] [opt=<o>] t0=<op,op,...> t1=<...> [t2=<...>] sched=<c.c.c|->
+ * line:   <kind> init=<n> [range=<r>] [opt=<o>|unique] [max=<n>] t0=<op,op,...> t1=<...> [t2=<...>] sched=<c.c.c|->
+ *         max=<n>: list/queue/stack only -- setsize(n) after creating and pre-filling the container
+ *         (add/push beyond the limit must fail with ENOBUFS); opt=unique = QLISTTBL_UNIQUE
  *         op = name[:arg[:arg]]   (see do_op)
  * result: sched=<choices> alts=<enabled bitmasks> ops=<tid.idx:inv:resp:result;...> final=<content> [status]
  *
@@ -180,6 +182,7 @@ static void do_op(op_t *o, char *out) {
         else if (!strcmp(f, "removefirst")) res(out, "%d", l->removefirst(l));
         else if (!strcmp(f, "removelast")) res(out, "%d", l->removelast(l));
         else if (!strcmp(f, "removeat")) res(out, "%d", l->removeat(l, (int) o->a));
+        else if (!strcmp(f, "setsize")) res(out, "%zu", l->setsize(l, (size_t) o->a));
         else if (!strcmp(f, "clear")) { l->clear(l); res(out, "void"); }
         else if (!strcmp(f, "reverse")) { l->reverse(l); res(out, "void"); }
         else if (!strcmp(f, "toarray")) { n = 0; void *a = l->toarray(l, &n); if (!a) res(out, "null:%zu", n); else { hexout(out, a, n, n); free(a); } }
@@ -236,7 +239,7 @@ static void *worker(void *arg) {
 }
 
 /* ------------------------------------------------------------------ setup, final content */
-static void make_container(int init, int range, int opt) {
+static void make_container(int init, int range, int opt, int max) {
     char kb[16], vb[16];
     if (!strcmp(kind, "vector")) {
         qvector_t *v = qvector(0, 4, QVECTOR_THREADSAFE | (opt ? opt : QVECTOR_RESIZE_DOUBLE));
@@ -245,14 +248,17 @@ static void make_container(int init, int range, int opt) {
     } else if (!strcmp(kind, "list")) {
         qlist_t *l = qlist(QLIST_THREADSAFE);
         for (int i = 0; i < init; i++) { vstr(100 + i, vb); l->addlast(l, vb, strlen(vb) + 1); }
+        if (max > 0) l->setsize(l, (size_t) max);
         cont = l;
     } else if (!strcmp(kind, "queue")) {
         qqueue_t *q = qqueue(QQUEUE_THREADSAFE);
         for (int i = 0; i < init; i++) { vstr(100 + i, vb); q->pushstr(q, vb); }
+        if (max > 0) q->setsize(q, (size_t) max);
         cont = q;
     } else if (!strcmp(kind, "stack")) {
         qstack_t *q = qstack(QSTACK_THREADSAFE);
         for (int i = 0; i < init; i++) { vstr(100 + i, vb); q->pushstr(q, vb); }
+        if (max > 0) q->setsize(q, (size_t) max);
         cont = q;
     } else if (!strcmp(kind, "hashtbl")) {
         qhashtbl_t *t = qhashtbl(range, QHASHTBL_THREADSAFE);
@@ -329,7 +335,7 @@ int main(void) {
         char *w[MAXW]; int nw = split_words(line, w);
         if (nw == 0) continue;
         kind = w[0];
-        int init = 0, range = 3, opt = 0, bad = 0, reps = 1;
+        int init = 0, range = 3, opt = 0, max = 0, bad = 0, reps = 1;
         nthreads = 0; nprefix = 0; freerun = 0;
         for (int t = 0; t < MAXT; t++) nops[t] = 0;
         for (int i = 1; i < nw; i++) {
@@ -337,7 +343,8 @@ int main(void) {
             *eq = 0; char *v = eq + 1;
             if (!strcmp(w[i], "init")) init = atoi(v);
             else if (!strcmp(w[i], "range")) range = atoi(v);
-            else if (!strcmp(w[i], "opt")) opt = atoi(v);
+            else if (!strcmp(w[i], "opt")) opt = !strcmp(v, "unique") ? QLISTTBL_UNIQUE : atoi(v);
+            else if (!strcmp(w[i], "max")) max = atoi(v);
             else if (!strcmp(w[i], "free")) freerun = atoi(v);
             else if (!strcmp(w[i], "reps")) reps = atoi(v);
             else if (w[i][0] == 't' && w[i][1] >= '0' && w[i][1] < '0' + MAXT && !w[i][2]) {
@@ -348,7 +355,7 @@ int main(void) {
         }
         if (bad || nthreads < 1) { printf("bad-op\n"); continue; }
         for (int rep = 0; rep < reps; rep++) {
-            make_container(init, range, opt);
+            make_container(init, range, opt, max);
             if (!cont) { printf("bad-kind\n"); break; }
             npts = 0; stamp = 0; deadlock = 0; badsched = 0; lock_owner = -1; lock_depth = 0;
             for (int t = 0; t < nthreads; t++) { tstate[t] = ST_RUN; for (int i = 0; i < nops[t]; i++) { results[t][i][0] = 0; inv_t[t][i] = res_t[t][i] = 0; } }
